@@ -81,6 +81,12 @@ def run(ctx):
                 add(bondgen.generic_matrix(rng, q0, q1, bool(rng.integers(2)), deficient=True), q0, q1, False, False, 'deficient_large')
             else:
                 add(bondgen.generic_matrix(rng, q0, q1, bool(rng.integers(2))), q0, q1, False, True, 'gen_large')
+        # entries of very small / very large magnitude (norms that under- or overflow when squared)
+        for _ in range(ctx.pick(120, 2000)):
+            m, n, q0, q1 = bondgen.random_layout(rng, 6, 6)
+            e = int(rng.choice([-300, -200, -165, -100, -30, 30, 100, 150]))
+            A = bondgen.generic_matrix(rng, q0, q1, bool(rng.integers(2)), deficient=bool(rng.random() < 0.2)) * 10.0**e
+            add(A, q0, q1, False, False, f'scaled_1e{e}')
         # integer dtype input (finding F4)
         for _ in range(ctx.pick(40, 400)):
             m, n, q0, q1 = bondgen.random_layout(rng, 5, 5)
